@@ -10,7 +10,9 @@ P = Prop('C15', 'Non-semantic configuration macros and build settings never chan
 
 # (module, regex over shim names) - the operation table
 TABLE = [
-    ('C05', r'^glm_(bitCount|findLSB|findMSB|bitfieldReverse|bitfieldExtract|bitfieldInsert)_(i32|u32)_(s|v4)$|^glm_(uaddCarry|umulExtended|imulExtended)_(s|v4)$'),
+    ('C05', r'^glm_(bitCount|findLSB|findMSB|bitfieldReverse|bitfieldExtract|bitfieldInsert)_(i32|u32)_(s|v4)$|^glm_(uaddCarry|umulExtended|imulExtended)_(s|v4)$'
+            # the other widths: under the pre-C++11 language levels GLM uses its own make_signed/make_unsigned tables, one line per width
+            r'|^glm_(bitCount|findLSB|findMSB)_(i8|u8|i16|u16|i64|u64)_s$'),
     ('C07', r'^glm_(toFloat32|toFloat16|packHalf2x16|unpackHalf2x16|packHalf4x16)$'),
     ('C06', r'^glm_(pack|unpack)(Unorm4x8|Snorm2x16|Unorm1x16|Snorm1x8|Unorm3x10_1x2|F2x11_1x10|Unorm2x4|Int2x16)$'),
     ('C11', r'^(?!glm_frexp).*_f32$'),   # frexp: libm output parameter is not modelled (uninterpreted call), nothing to compare
@@ -92,6 +94,8 @@ def tier_of(cfg, n):
         return 'thorough'
     if STRUCT_RX.match(n) and n not in STRUCT_QUICK_ALL:
         return 'quick' if cfg == 'cxx98_unknown' else 'thorough'
+    if re.search(r'_(i8|u8|i16|u16|i64|u64)_s$', n):
+        return 'quick' if cfg == 'cxx98' else 'thorough'
     if cfg == 'O0':
         # -O0 keeps every loop and call: the vec4 forms of the bit-counting loops and the float packers take 1-2 min each there
         return 'thorough' if re.search(r'_v4$|^glm_pack|^glm_bitfieldReverse', n) else 'quick'
